@@ -34,6 +34,9 @@ import Bmc.Proofs.GenDec.GetDCMISensorInfoRsp
 import Bmc.Proofs.GenDec.FullSensorRecord
 import Bmc.Proofs.GenDec.V2Session
 import Bmc.Proofs.GenDec.AES128CBC
+import Bmc.Proofs.GenOrch.TranslatedOk
+import Bmc.Proofs.GenOrch.WalkSDRs
+import Bmc.Proofs.GenOrch.RetrieveSDRRepository
 import Bmc.Proofs.ApiWrappers
 #print axioms Bmc.Proofs.C17.deviceID_reuse
 #print axioms Bmc.Proofs.C17.chassis_reuse
@@ -95,6 +98,11 @@ import Bmc.Proofs.ApiWrappers
 #print axioms Bmc.Proofs.GenDec.FullSensorRecord_gen_eq
 #print axioms Bmc.Proofs.GenDec.V2Session_gen_eq
 #print axioms Bmc.Proofs.GenDec.AES128CBC_gen_eq
+#print axioms Bmc.Proofs.GenOrch.translated_ok
+#print axioms Bmc.Proofs.GenOrch.gaveUp_none
+#print axioms Bmc.Proofs.GenOrch.walkSDRs_gen_eq
+#print axioms Bmc.Proofs.GenOrch.RetrieveSDRRepository_gen_eq
 #print axioms Bmc.Proofs.ApiWrappers.api_wrappers
 #print axioms Bmc.Proofs.ApiWrappers.api_other_senders
 #print axioms Bmc.Proofs.ApiWrappers.api_cmd_constructors
+#print axioms Bmc.Proofs.ApiWrappers.validate_response
